@@ -529,7 +529,13 @@ fn run_history(topo: &Topo, via_engine: bool, steps: &[Step], stats: &mut Stats)
                     if same_ts.len() >= 2 && same_ts.iter().any(|v| *v != held_v) {
                         let first = same_ts.first().is_some_and(|v| *v == held_v);
                         let last = same_ts.last().is_some_and(|v| *v == held_v);
-                        stats.hit(&format!("{k}:equal_ts_holds_{}", if last { "latest_arrival" } else if first { "first_arrival" } else { "middle_arrival" }));
+                        let which = match (first, last) {
+                            (true, true) => "first_and_latest_arrival",
+                            (true, false) => "first_arrival",
+                            (false, true) => "latest_arrival",
+                            (false, false) => "middle_arrival",
+                        };
+                        stats.hit(&format!("{k}:equal_ts_holds_{which}"));
                     }
                 }
             }
@@ -839,7 +845,7 @@ fn main() {
     let n_random = match args.tier.as_str() {
         "miri" => 12,
         "tsan" => 200,
-        _ => args.size(16_000, 600_000),
+        _ => args.size(50_000, 5_000_000),
     };
     let max_len = if args.tier == "miri" { 16 } else { 70 };
 
